@@ -445,6 +445,20 @@ def tail_protocol(ctx, rr):
     rr.ob(ctx.where(r), 'read: the tail loop is entered iff the head has HAS_TAIL and stops at the first block without HAS_TAIL (bit %s)' % has_tail_bit, ok=ok)
     if not ok:
         fail(r, wl[0] if wl else r.node, 'tail reader no longer continues exactly while the block just read carries the HAS_TAIL flag the writer sets')
+    # whenever the head carries HAS_TAIL the tail is read: no extra condition may skip it
+    from .table_rules import tables
+    rows = tables(ctx, r, iters=1, keep=lambda nm, c: nm in ('read', 'has_tail'))
+    badrows = []
+    for row in rows:
+        ht = [v for k, v in row.val.items() if k.endswith('.has_tail()')]
+        exists = [v for k, v in row.val.items() if k.startswith('isnone:')]
+        tail_reads = [e for e in row.calls('read') if not e.args]
+        if ht and ht[-1] is True and not tail_reads:
+            badrows.append(row)
+    rr.ob(ctx.where(r), 'read: a head with HAS_TAIL always gets its tail blocks read (%d rows)' % len(rows), ok=not badrows)
+    for row in badrows[:1]:
+        fail(r, wl[0] if wl else r.node, 'a node whose head carries HAS_TAIL can be loaded without its tail (an extra condition skips the tail read): the stem comes back '
+             'truncated to the block payload')
     # stem() = head + tail
     st = P.method(TRIE_NODE, 'stem')
     rets = [x.value for x in P.own(st, ast.Return) if x.value is not None]
@@ -459,3 +473,48 @@ def tail_protocol(ctx, rr):
     rr.ob(ctx.where(st), 'stem() returns head payload followed by the tail', ok=ok)
     if not ok:
         fail(st, st.node, 'stem() no longer returns head payload + tail')
+
+
+@rule('R-METRICS')
+def metrics(ctx, rr):
+    """metrics count each kind of block by its own mark, independently of the other marks"""
+    P = ctx.P
+    u = P.method('LRUTrie', 'metrics')
+    loops = [f for f in P.own(u, ast.For)]
+    if len(loops) != 1:
+        raise AnalysisError('R-METRICS: LRUTrie.metrics no longer has one scan loop')
+    from .table_rules import tables
+    rows = tables(ctx, u, stmts=loops[0].body, iters=1, keep=lambda n, c: n in ('is_page', 'is_crawled', 'has_tail', 'is_tail'))
+    spec = {"'nb_nodes'": None, "'nb_pages'": ['.is_page()'], "'nb_crawled_pages'": ['.is_page()', '.is_crawled()'], "'nb_fragmented_nodes'": ['.has_tail()'],
+            "'nb_tail_nodes'": ['.is_tail()']}
+    bad = []
+    for r in rows:
+        incs = {}
+        for e in r.events:
+            if e.kind == 'store' and 'Add=' in e.text and e.args == ['1']:
+                for k in spec:
+                    if k in (e.name or ''):
+                        incs[k] = incs.get(k, 0) + 1
+        for k, marks in spec.items():
+            if marks is None:
+                want = True
+            else:
+                vals = [[v for kk, v in r.val.items() if kk.endswith(m)] for m in marks]
+                if any(not v for v in vals):
+                    if any(v and v[-1] is False for v in vals):
+                        want = False
+                    else:
+                        bad.append((r, 'counter %s is decided without looking at %s' % (k, marks)))
+                        continue
+                else:
+                    want = all(v[-1] for v in vals)
+            if (incs.get(k, 0) == 1) != want or incs.get(k, 0) > 1:
+                bad.append((r, 'counter %s is %s although %s' % (k, 'incremented' if incs.get(k) else 'not incremented', marks)))
+    rr.ob(ctx.where(u, loops[0]), 'metrics: nodes, pages, crawled pages, fragmented nodes and tail blocks are each counted by their own mark (%d rows)' % len(rows), ok=not bad)
+    for r, msg in bad[:3]:
+        rr.fail(ctx.finding('R-METRICS', u, loops[0], 'LRUTrie.metrics: ' + msg, detail={'row': r.show()[:300]}))
+    lm = P.method('LinkStore', 'metrics')
+    ok = any(isinstance(c, ast.Call) and any(t.name == 'count_links' for t in P.targets(c)) for c in P.own(lm, ast.Call))
+    rr.ob(ctx.where(lm), 'link metrics are derived from count_links', ok=ok)
+    if not ok:
+        rr.fail(ctx.finding('R-METRICS', lm, lm.node, 'LinkStore.metrics no longer reports count_links', stmt='link metrics'))
